@@ -8,6 +8,10 @@ PY = '/venv/bin/python'
 
 MC = 'model_checking'
 CHECKS = {
+    'C20': (MC, 'stateless exhaustive schedule enumeration (CHESS-style, preemption-bounded) of the real AsyncRunner on real threads under a controlled scheduler (shimmed threading/time + sys.settrace statement-level preemption)',
+            'Eight drivers (start/queue/await/stop, delayed events and self-termination, pause/unpause, stop while paused, execute_all, two clients, stop during an execute_all cycle, pause racing stop); for each, every schedule of the runner thread against the client thread(s) with at most 1-3 (quick) / 2-4 (thorough) preemptions is executed on the real code and judged: no deadlock/livelock, executed steps == steps handed to after_execute, events consumed exactly once and FIFO, hooks once, pause/stop semantics.',
+            'GIL modelled at statement granularity in six functions and at Event/Thread/sleep operations; interval=0, virtual time; preemption-bounded, not all schedules. Two known findings (F11 queue insert race, F13 pause vs stop deadlock).',
+            '§4 C20'),
     'C19': (MC, 'exhaustive enumeration of bounded scenarios (all action blocks x all predefined then-steps x argument domains) run through execute_bdd, against an oracle driving a plain Interpreter',
             'Every scenario made of a when-block of <=2 predefined steps (optionally after a given step, followed by a given step, or as second block after a then) and one then-step of every predefined pattern and argument (true and false assertions in similar numbers) is executed by execute_bdd on two charts; each step status from behave\'s JSON report must equal the truth of the asserted fact computed from the macro steps / state of a plain Interpreter fed the same actions; sismic.testing predicates are compared with the macro steps; the exit code must reflect the verdicts.',
             'Two small charts and the listed action/argument alphabets; behave stops a scenario at the first failure so each when-block carries one verdict.',
